@@ -27,8 +27,11 @@ def _try(name):
 
 
 # ------------------------------------------------------------------ RP66V1
-def rp66v1(rng, scale=1, layout=None):
+def rp66v1(rng, scale=1, layout=None, convertible=False):
     from . import dlis
+    if convertible and not hasattr(_try('logpass'), 'provider_records'):
+        from . import example_files
+        return example_files.example(rng, 'rp66v1')
     lay = layout or dlis.random_layout(rng)
     lp = _try('logpass')
     if lp is not None and hasattr(lp, 'provider_records'):
